@@ -295,6 +295,13 @@ func run(s Script, v *vt.V) {
 			v.Failf("request-while-holding-body", "%s: %s sent %s while it was still holding the unread body of an earlier response of the same call: with a transport that allows one connection per host (http.Transport{MaxConnsPerHost: 1}) this request waits for a connection that only the call itself can free - it never returns", desc, name, overlap)
 			return false
 		}
+		tr.mu.Lock()
+		stillOpen := tr.open
+		tr.mu.Unlock()
+		if stillOpen > 0 {
+			v.Failf("response-body-never-closed", "%s: %s has returned (every reader it handed out was read and closed) and %d response bodies are neither closed nor read to their end: their connections are never given back (a transport with MaxConnsPerHost: 1 makes the next operation wait forever)", desc, name, stillOpen)
+			return false
+		}
 		if used := tr.count() - before; used > budget || tr.aborted {
 			v.Failf("unbounded-requests", "%s: %s issued %d requests with only %d answers left", desc, name, used, budget-1)
 			return false
@@ -535,7 +542,7 @@ func genScript(t *rapid.T) Script {
 var prop = &vt.Prop[Script]{
 	ID:   "C18",
 	Name: "ClientAnyResponse",
-	Rule: "client operation = each client method (reads drained to EOF, listings drained, chunked writer: open / Write small / Write 100 KiB / Size / Close / Commit / Size+ID / Commit again / Write / Cancel / Close, resume with explicit offset and with -1) x ListPageSize in {-5,-1,0,1,2,1000} x chunk hint x {plain transport, ociauth's standard transport whose first exchange is a 401 Bearer challenge with an error body and a token request to the registry's own host, answered with a proper token document or with null, {}, [], wrongly typed, overflowing, empty, truncated or huge bodies} x a script of 0-8 responses, each the expected answer distorted in one dimension: status from every class (2xx the operation does not expect, 3xx without Location, 4xx, 5xx), one of Location / Range / Content-Range / Docker-Content-Digest / Link (incl. well-formed targets followed by parameters of every shape) / Content-Type / OCI-Chunk-Min-Length absent / empty / malformed / contradictory / huge, body empty / truncated / wrong-shape / garbage / null / 2 MiB, Content-Length unknown / too long / too short; served by a scripted RoundTripper that sets Response.Request and fails every request after the script is exhausted; oracle = no panic (also none when a returned error is printed, unwrapped and asked for its code, detail, status and response body), every individual API call returns within 10 s, issues at most (answers still unconsumed) + 1 requests, and never sends a request while it holds the unread body of an earlier response of the same call (that hangs under a one-connection-per-host transport); non-trivial = a distorted response was actually consumed; distinct = (operation, page size, consumed fault vector)",
+	Rule: "client operation = each client method (reads drained to EOF, listings drained, chunked writer: open / Write small / Write 100 KiB / Size / Close / Commit / Size+ID / Commit again / Write / Cancel / Close, resume with explicit offset and with -1) x ListPageSize in {-5,-1,0,1,2,1000} x chunk hint x {plain transport, ociauth's standard transport whose first exchange is a 401 Bearer challenge with an error body and a token request to the registry's own host, answered with a proper token document or with null, {}, [], wrongly typed, overflowing, empty, truncated or huge bodies} x a script of 0-8 responses, each the expected answer distorted in one dimension: status from every class (2xx the operation does not expect, 3xx without Location, 4xx, 5xx), one of Location / Range / Content-Range / Docker-Content-Digest / Link (incl. well-formed targets followed by parameters of every shape) / Content-Type / OCI-Chunk-Min-Length absent / empty / malformed / contradictory / huge, body empty / truncated / wrong-shape / garbage / null / 2 MiB, Content-Length unknown / too long / too short; served by a scripted RoundTripper that sets Response.Request and fails every request after the script is exhausted; oracle = no panic (also none when a returned error is printed, unwrapped and asked for its code, detail, status and response body), every individual API call returns within 10 s, issues at most (answers still unconsumed) + 1 requests, and never sends a request while it holds the unread body of an earlier response of the same call (that hangs under a one-connection-per-host transport), and when it has returned and its readers are closed no response body is left unclosed and unread; non-trivial = a distorted response was actually consumed; distinct = (operation, page size, consumed fault vector)",
 	Gen:  genScript,
 	Run:  run,
 }
